@@ -80,11 +80,25 @@ def tree_hash():
     return h.hexdigest()[:20]
 
 
+def cargo_env():
+    """env!("CARGO_PKG_NAME") / env!("CARGO_PKG_VERSION") in the extracted code: taken from /repo/Cargo.toml as cargo would set them"""
+    env = dict(os.environ)
+    try:
+        txt = open(os.path.join(REPO, 'Cargo.toml')).read()
+        m = re.search(r'^name\s*=\s*"([^"]+)"', txt, re.M)
+        v = re.search(r'^version\s*=\s*"([^"]+)"', txt, re.M)
+        env['CARGO_PKG_NAME'] = m.group(1) if m else 'unknown'
+        env['CARGO_PKG_VERSION'] = v.group(1) if v else '0.0.0'
+    except OSError:
+        pass
+    return env
+
+
 def run_verus(path, rlimit, nthreads=4):
     cmd = [VERUS, path, '--output-json', '--time', '--triggers-mode', 'silent', '--multiple-errors', '8',
            '--rlimit', str(rlimit), '--num-threads', str(nthreads), '--', '--error-format=json']
     t0 = time.time()
-    p = subprocess.run(cmd, capture_output=True, text=True, cwd=os.path.dirname(path))
+    p = subprocess.run(cmd, capture_output=True, text=True, cwd=os.path.dirname(path), env=cargo_env())
     wall = time.time() - t0
     out = None
     try:
